@@ -6,7 +6,8 @@ SPEC = {
                  "C30_repo_distinct", "C30_point_confined", "C30_point_distinct", "C30_archive_confined",
                  "C30_archive_distinct", "C30_module_confined", "C30_module_distinct", "C30_file_confined",
                  "C30_file_distinct", "C30_dump_object_confined", "C30_dump_registry_distinct",
-                 "C30_dump_file_distinct", "C30_dump_refuted", "C30_dump_refuted_rsync", "C30_sha256_hex_shape",
+                 "C30_dump_registry_names_plain", "C30_dump_registry_names_no_slash", "C30_dump_file_distinct",
+                 "C30_dump_refuted_before_fix", "C30_dump_refuted_rsync_before_fix", "C30_sha256_hex_shape",
                  "C30_model_satisfies_spec", "C30_nonvacuous"],
     "streams": [{
         "name": "paths", "bin": "c30", "check_module": "C30.Spec",
@@ -14,7 +15,7 @@ SPEC = {
                       "dumpnames_model (dump_base (c_cache CASE)) (c_hs CASE))",
         "why": {"2": "C30.Spec: a path built for a URI leaves the cache directory, or two uses of non-equivalent "
                      "URIs resolve to the same file (spec_okb / cross_okb), or a dump directory is shared or two "
-                     "dump writes share a file outside the known class"},
+                     "dump writes share a file"},
     }],
     "level_text": "Theorems over all URIs accepted by the (modelled) rpki parsers and all cache directories, no size "
                   "bound: every path built by the store (TA certificates, RRDP repository directories, publication "
@@ -22,9 +23,11 @@ SPEC = {
                   "collector (archive) and Store::dump_object resolves lexically to a path below its root; within "
                   "each family two URIs produce the same file (same resolution and same trailing-separator flag) "
                   "only if they are equivalent, for every digest function of hex shape that does not collide on "
-                  "the inputs concerned; DumpRegistry gives different RRDP repositories different names; dump "
-                  "files do not collide when repository directories are plain names, and do (witness, reproduced) "
-                  "when the authority is '..', '.', '' or 'rsync' (known finding F19).",
+                  "the inputs concerned; DumpRegistry gives different RRDP repositories different names, each a "
+                  "normal path component other than 'rsync' and without a separator, and dump files do not collide "
+                  "when repository directories are such plain names (finding F19 - authorities '..', '.', '' and "
+                  "'rsync' got the directory itself, its parent or the rsync repository's directory - repaired by a "
+                  "fix: commit; witnesses for the old registry kept as theorems).",
     "level_note": "Model hand-written from utils/uri.rs, store.rs, collector/rsync.rs, collector/rrdp/base.rs, "
                   "utils/dump.rs, rpki-0.19.3 uri.rs; SHA-256 implemented in Coq (Base/Sha256.v) for evaluation. Tie: "
                   "exact path strings from cfg hooks (Store::verif_*, Config::verif_rsync_paths, "
